@@ -447,7 +447,13 @@ func (e *Explorer) assertHolds(c *Term, label string) {
 
 // recordViolation must be called right after a Sat answer (model available).
 func (e *Explorer) recordViolation(label, kind, detail, known string) {
-	key := kind + "/" + label + "/" + known
+	e.recordViolationKeyed(label, kind, detail, known, "")
+}
+
+// recordViolationKeyed distinguishes violations with the same label by an extra key
+// (e.g. the two program locations of a data race).
+func (e *Explorer) recordViolationKeyed(label, kind, detail, known, extra string) {
+	key := kind + "/" + label + "/" + known + "/" + extra
 	if e.violSeen == nil {
 		e.violSeen = map[string]bool{}
 	}
@@ -461,11 +467,7 @@ func (e *Explorer) recordViolation(label, kind, detail, known string) {
 	}
 	if e.violSeen[key] {
 		// keep only a count for repeated labels
-		for i := range e.Violations {
-			if e.Violations[i].Label == label && e.Violations[i].Kind == kind && e.Violations[i].Known == known {
-				return
-			}
-		}
+		return
 	}
 	e.violSeen[key] = true
 	e.Violations = append(e.Violations, v)
@@ -559,6 +561,9 @@ func (e *Explorer) modelVector() []replayItem {
 			it.Int = val(nd.term)
 		}
 		out = append(out, it)
+	}
+	if e.it != nil && len(e.it.mstate.lockOrder) > 0 {
+		out = append(out, replayItem{Name: "#lockorder", Kind: "lockorder", Bytes: append([]int{}, e.it.mstate.lockOrder...)})
 	}
 	return out
 }
